@@ -626,6 +626,9 @@ nodesLoop:
 			terminating := true
 			var positionOfDefault *ast.Position
 			for _, cas := range node.Cases {
+				// Each case has its own scope, that includes the variables
+				// declared by its communication clause.
+				tc.scopes.Enter(cas)
 				switch comm := cas.Comm.(type) {
 				case nil:
 					if positionOfDefault != nil {
@@ -650,6 +653,7 @@ nodesLoop:
 				}
 				cas.Body = tc.checkNodesInNewScope(node, cas.Body)
 				terminating = terminating && tc.terminating
+				tc.scopes.Exit()
 			}
 			tc.removeLastAncestor()
 			tc.scopes.Exit()
